@@ -67,8 +67,20 @@ def gen(rng, sid, max_payload, ndg):
             seq.append(f)
             if rng.random() < 0.2:
                 seq.append(f)
+    # whole (unfragmented) datagrams that re-use the identification and the address pair (either direction) of a datagram
+    # whose fragments are in flight: RFC 6864 lets atomic datagrams carry any id, they must not disturb the pending reassembly
+    for frs in dgs:
+        if len(frs) > 1 and rng.random() < 0.5:
+            f0 = frs[0]
+            for _ in range(rng.choice([1, 1, 2])):
+                a, b = (f0['src'], f0['dst']) if rng.random() < 0.5 else (f0['dst'], f0['src'])
+                seq.append({'id': f0['id'], 'src': a, 'dst': b, 'proto': 253, 'ttl': rng.randrange(1, 256), 'tos': 0, 'df': rng.randrange(2),
+                            'mf': 0, 'off': 0, 'pl': bytes(rng.randrange(256) for _ in range(rng.choice([1, 8, 20])))})
     rng.shuffle(seq)
-    lines = ['pkt %d %d %d %d %d %d %d %d %d x%s' % (f['id'], f['src'], f['dst'], f['proto'], f['ttl'], f['tos'], f['df'], f['mf'], f['off'], f['pl'].hex()) for f in seq]
+    # some packets arrive in frames with octets behind the IP total length (Ethernet minimum-size padding, trailers)
+    trailer = rng.random() < 0.4
+    lines = ['pkt %d %d %d %d %d %d %d %d %d x%s' % (f['id'], f['src'], f['dst'], f['proto'], f['ttl'], f['tos'], f['df'], f['mf'], f['off'], f['pl'].hex())
+             + ((' %d' % rng.choice([1, 6, 18, 26])) if trailer and rng.random() < 0.5 else '') for f in seq]
     return (sid, lines)
 
 
@@ -105,7 +117,7 @@ def oracle(lines, lh):
     pk = []
     for l in lines:
         t = l.split()
-        if t[0] != 'pkt' or len(t) != 11:
+        if t[0] != 'pkt' or len(t) not in (11, 12):
             return None
         ident, src, dst, proto, ttl, tos, df, mf, off = map(int, t[1:10])
         pl = bytes.fromhex(t[10][1:])
